@@ -177,6 +177,8 @@ def validate(ctx, groups, rng):
         for t_ in spec.get("tables", []):
             tables[t_] = dict(getattr(module, t_))
         strings = sorted({k for tb in tables.values() for k in tb} | {"normal", "lognormal", "log-normal", "Normal", "weibull"})
+        if spec.get("str_values"):      # strings that reach every branch of this target (channel names, ...)
+            strings = list(spec["str_values"])
         ot = spec.get("out_types", ["num"] * len(spec["out"]))
         pseudo = [int(o[o.index("[") + 1:-1]) for o in spec["out"] if o.endswith("]") and not o.endswith("[]")] if all(
             o.endswith("]") and not o.endswith("[]") for o in spec["out"]) else None
